@@ -19,7 +19,7 @@ _calc = {}
 
 def setup_key(setup):
     return canon([setup["recipe"]["lattice"], setup["recipe"]["basis"], setup["chem"], setup["k"], setup.get("closest", 0), setup["Nthermo"]] +
-                 (["slperm"] if setup.get("slperm") else []))
+                 (["slperm"] if setup.get("slperm") else []) + ([["keep"] + list(setup["keep"])] if setup.get("keep") else []))
 
 
 def calculator(setup, fresh=False, NGFmax=4):
@@ -29,6 +29,9 @@ def calculator(setup, fresh=False, NGFmax=4):
     if fresh or key not in _calc:
         crys = cs.build(setup["recipe"])
         sl, jn, cut = nw.network(crys, setup["chem"], setup["k"], setup.get("closest", 0))
+        if setup.get("keep"):
+            # the caller's jump network need not be everything inside a cutoff: some symmetry classes left out
+            jn = [jn[i] for i in setup["keep"]]
         if setup.get("slperm"):
             # the caller lists the Wyckoff sets (and their members) in its own order: the constructor takes any sitelist
             sl = [list(reversed(w)) for w in reversed(sl)]
@@ -97,7 +100,7 @@ NV_CAP = 110
 
 
 @st.composite
-def setups(draw, dim=None, nthermo=(1, 2), max_mobile=3, p_catalogue=0.5, names=None, max_jumps=40, originstates="any"):
+def setups(draw, dim=None, nthermo=(1, 2), max_mobile=3, p_catalogue=0.5, names=None, max_jumps=40, originstates="any", prune=True):
     """crystal + percolating vacancy network + thermodynamic range; species 0 is the vacancy sublattice.
     originstates: "any" | "no" (crystals whose vacancy sites carry a vector basis are replaced; the setup is then marked
     with "redrawn": "originstates" so that the number of exclusions can be counted)"""
@@ -151,6 +154,16 @@ def setups(draw, dim=None, nthermo=(1, 2), max_mobile=3, p_catalogue=0.5, names=
             rec["spins"] = list(reversed(rec["spins"]))
         out["recipe"] = rec
         out["chem"] = len(rec["basis"]) - 1
+    if prune and draw(st.integers(0, 4)) == 0:
+        # a jump network chosen by hand: one symmetry class of the cutoff network left out, as long as what remains still percolates
+        # (a jump network is an input list; nothing says it has to be complete up to a distance)
+        cr_ = cs.build(out["recipe"])
+        sl_, jn_, _ = nw.network(cr_, out["chem"], k, 0)
+        if len(jn_) >= 3:
+            drop = draw(st.integers(0, len(jn_) - 1))
+            keep = [i for i in range(len(jn_)) if i != drop]
+            if nw.gf_ok(cr_, out["chem"], sl_, [jn_[i] for i in keep]):
+                out["keep"] = keep
     if redrawn:
         out["redrawn"] = redrawn
     return out
